@@ -23,7 +23,7 @@ from sim.worlds import build, catalog, gen
 NAME = "purity"
 PROPERTY = "C11"
 
-ALL_TEMPLATES = ["structures", "dataset", "inversion", "simulator", "vis_interface", "triangles", "image_mesh", "interferometer"]
+ALL_TEMPLATES = ["structures", "dataset", "inversion", "simulator", "vis_interface", "triangles", "image_mesh", "interferometer", "layout"]
 CONF_KNOBS = {
     "positive_only_uses_p_initial": [True, False],
     "use_positive_only_solver": [True, False],
@@ -144,7 +144,7 @@ class PuritySim:
 
     def gen_knobs(self):
         r = self.streams["world"]
-        t = [x for x in ALL_TEMPLATES if r.random() < {"structures": 0.6, "dataset": 0.6, "inversion": 0.55, "simulator": 0.25, "vis_interface": 0.15, "triangles": 0.15, "image_mesh": 0.2, "interferometer": 0.25}[x]]
+        t = [x for x in ALL_TEMPLATES if r.random() < {"structures": 0.6, "dataset": 0.6, "inversion": 0.55, "simulator": 0.25, "vis_interface": 0.15, "triangles": 0.15, "image_mesh": 0.2, "interferometer": 0.25, "layout": 0.12}[x]]
         if not t:
             t = [r.choice(["structures", "inversion", "dataset"])]
         for extra in self.cfg.get("force_templates", []):
